@@ -10,11 +10,23 @@ Lean (SSVerif/Props/C05.lean, all for every grammar / rule table, no bound on ne
   C05_explore_sound, C05_comparison_decides, C05_compiled_language
                            what a passing verified language comparison of a dumped FSG means
   C05_weights_normalised   weights over Q sum to one per rule, normalisation is idempotent
+Props/C05Names.lean (the string side of the symbol table, Model/JsgfNames.lean):
+  C05_generated_names_distinct   `sprintf "<%s.g%05d>"` is injective in the counter for EVERY grammar name
+  C05_generated_names_not_user   a generated name differs from every string not of the shape <grammar.gDIGITS>
+  C05_rule_strings_injective     abstract rule names (user i / gen k) are different keys of jsgf->rules
+Props/C05Repr.lean:
+  C05_representable_fuel_stable, C05_refusal_not_by_fuel   the accept/refuse decision never depends on the recursion bound
+  C05_read_string                jsgf_read_string: NULL without a public rule, else the correct FSG of a public rule
 
 Tie / oracle, per generated surface grammar g (printed to JSGF text with comments, quoting, tags, nested
 groups, weights), every rule of g used as top:
   (a) rule table dumped from the real scanner+parser (`jsgf->rules`) = `desugar g` up to the numbering of
       internal rules;
+  (a') every key of jsgf->rules is the full name of a user rule or exactly the string the Lean `genName` gives for its
+      counter, and there are as many generated keys as `desugar g` has internal rules (no two rules under one key);
+      identifiers (grammar names incl. dotted package-style ones, rule names, tokens, import names) are drawn from one
+      length distribution 1 / typical / 23-40 / 100+ / 300+ / 1000+ bytes, printed into the evidence, with an
+      obligation that long grammar names with >= 2 generated rules occurred;
   (b) "the real compiler builds an FSG" = `representable (desugar g) top`;
   (c) when built: verified `nfaEquiv` of the real FSG (raw and closed, dumped through the real arc iterator)
       against `explore (desugar g) top`; a distinguishing sentence is confirmed by the verified membership
@@ -124,6 +136,51 @@ def expansion_size(g):
     return max(rule(nm, frozenset()) for nm in rules)
 
 
+# Identifier lengths.  The property speaks about every grammar, so every identifier the check invents (grammar
+# name, rule names, tokens, import names) draws its length from ONE distribution that contains, besides the usual
+# short spellings, lengths beyond every customary fixed buffer (32, 64, 128, 256, 1024 bytes).  "typical" takes the
+# hand-picked pools (quoting, UTF-8, keywords as words, ...).
+LEN_CLASSES = [("1", 8), ("typical", 57), ("23-40", 20), ("100+", 9), ("300+", 5), ("1000+", 1)]
+LEN_RANGE = {"1": (1, 1), "23-40": (23, 40), "100+": (100, 160), "300+": (300, 420), "1000+": (1030, 1100)}
+TOKEN_CHARS = list("abcdefghijklmnopqrstuvwxyzABCXYZ0123456789") + list("'-_.!&#,:?%") + ["é", "ß", "日"]
+NAME_CHARS = list("abcdefghijklmnopqrstuvwxyzABCXYZ0123456789_-") + ["é", "日"]
+SEGMENTS = ["com", "sun", "speech", "app", "numbers", "org", "example", "acme", "navigation", "commands", "en", "v2",
+            "grammars", "home", "dialogue", "x"]
+GNAMES_TYPICAL = [("g", 40), ("turtle", 20), ("cmds_2", 10), ("com.example.cmds", 30)]
+SPEC_GNAME = "com.sun.speech.app.numbers"      # the name used in the JSGF specification's own examples
+LONG_GNAME = 24        # bytes; the evidence counts grammars whose name is at least this long ...
+MIN_GENERATED = 2      # ... and that have at least this many generated rules (groups, optionals, star/plus)
+
+
+def byte_len(s):
+    return len(s.encode("utf-8", errors="surrogateescape"))
+
+
+def len_class(n):
+    """class of a measured identifier length in bytes (for the evidence)"""
+    for lo, hi, nm in [(0, 1, "1"), (2, 22, "2-22"), (23, 40, "23-40"), (41, 99, "41-99"), (100, 299, "100-299"),
+                       (300, 999, "300-999")]:
+        if lo <= n <= hi:
+            return nm
+    return "1000+"
+
+
+def n_generated_rules(g):
+    """number of internal rules the parser defines for the grammar: one per group, optional, star, plus"""
+    cnt = [0]
+
+    def see(e):
+        if e[0] in ("G", "O", "S", "P"):
+            cnt[0] += 1
+    for _, _, body in g["rules"]:
+        walk_exps(body, see)
+    return cnt[0]
+
+
+def looks_generated(nm):
+    return re.fullmatch(r"g[0-9]{5,}", nm) is not None
+
+
 class Gen:
     def __init__(self, rng, stats):
         self.rng, self.stats = rng, stats
@@ -131,6 +188,88 @@ class Gen:
     def bump(self, key, sub):
         d = self.stats.setdefault(key, {})
         d[sub] = d.get(sub, 0) + 1
+
+    # -- identifiers ------------------------------------------------------------------------------------------
+    def draw_len(self):
+        """-> (class, length in characters or None for "take the pool")"""
+        cls = self.rng.weighted(LEN_CLASSES)
+        if cls == "typical":
+            return cls, None
+        lo, hi = LEN_RANGE[cls]
+        return cls, self.rng.range(lo, hi)
+
+    def chars(self, alphabet, n):
+        """n characters; a long identifier is a stem repeated (the stem is redrawn with probability 1/2, so that long
+        identifiers of one grammar often share a long prefix) followed by 6 random characters"""
+        r = self.rng
+        if n <= 16:
+            return "".join(r.choice(alphabet) for _ in range(n))
+        if getattr(self, "stem", None) is None or any(ch not in alphabet for ch in self.stem) or r.chance(0.5):
+            self.stem = "".join(r.choice(alphabet) for _ in range(r.range(3, 9)))
+        body = (self.stem * (n // len(self.stem) + 1))[:n - 6]
+        return body + "".join(r.choice(alphabet) for _ in range(6))
+
+    def dotted(self, n):
+        """package-style name of exactly n characters: segments joined by dots, no empty segment"""
+        r = self.rng
+        out = r.choice(SEGMENTS)
+        while len(out) < n:
+            out += "." + r.choice(SEGMENTS)
+        out = out[:n]
+        if out.endswith("."):
+            out = out[:-1] + "x"
+        return out
+
+    def ident(self, kind, pooled, taken):
+        """an identifier for one slot: the pool spelling `pooled` when the drawn class is "typical", else a generated
+        one of the drawn length; never a spelling already in `taken`"""
+        r = self.rng
+        for _ in range(20):
+            cls, n = self.draw_len()
+            if n is None:
+                s = pooled
+            elif kind == "token":
+                s = self.chars(TOKEN_CHARS, n)
+            elif kind == "rule":
+                s = self.chars(NAME_CHARS, n)
+            else:   # grammar name, package of an import
+                s = SPEC_GNAME if (cls == "23-40" and r.chance(0.25)) else \
+                    self.dotted(n) if r.chance(0.75) else self.chars(NAME_CHARS, n)
+            if s in taken or (kind == "rule" and (looks_generated(s) or s in ("NULL", "VOID", "undefined", "nowhere"))):
+                continue
+            return s
+        return pooled
+
+    def note_lengths(self, g):
+        """measured length distribution (bytes) of every identifier of the grammar, per kind"""
+        words, refs = set(), set()
+
+        def see(e):
+            if e[0] == "t":
+                words.add(e[1])
+            elif e[0] == "r":
+                refs.add(e[1])
+        for _, _, body in g["rules"]:
+            walk_exps(body, see)
+        L = self.stats.setdefault("identifier_lengths", {})
+        for kind, xs in [("grammar name", [g["name"]]), ("rule name", {nm for nm, _, _ in g["rules"]} | refs),
+                         ("token", words), ("import name", g.get("imports", []))]:
+            d = L.setdefault(kind, {})
+            for x in xs:
+                n = byte_len(x)
+                d[len_class(n)] = d.get(len_class(n), 0) + 1
+                d["max"] = max(d.get("max", 0), n)
+        ngen = n_generated_rules(g)
+        nb = byte_len(g["name"])
+        G = self.stats.setdefault("grammar_name_bytes_x_generated_rules", {})
+        key = f"name {len_class(nb)} bytes, " + ("0" if ngen == 0 else "1" if ngen == 1 else f">={MIN_GENERATED}") + " generated rules"
+        G[key] = G.get(key, 0) + 1
+        if ngen >= MIN_GENERATED:
+            for lim in (LONG_GNAME, 100, 300):
+                if nb >= lim:
+                    k = f"name >= {lim} bytes and >= {MIN_GENERATED} generated rules"
+                    self.stats.setdefault("long_grammar_names", {})
+                    self.stats["long_grammar_names"][k] = self.stats["long_grammar_names"].get(k, 0) + 1
 
     def atom(self, ctx, last):
         r = self.rng
@@ -188,6 +327,7 @@ class Gen:
                 break
             self.bump("regenerated", "expansion too large")
         self.bump("kind", kind)
+        self.note_lengths(g)
         return g
 
     def grammar1(self):
@@ -197,11 +337,15 @@ class Gen:
         names = list(RULENAMES)
         r.shuffle(names)
         names = names[:nrules]
+        for i in range(len(names)):
+            names[i] = self.ident("rule", names[i], names[:i])
         words = list(WORDS)
         r.shuffle(words)
         words = words[:r.range(2, 4)]
+        for i in range(len(words)):
+            words[i] = self.ident("token", words[i], words[:i])
         maxdepth = r.weighted([(0, 8), (1, 16), (2, 22), (3, 20), (4, 14), (5, 10), (6, 10)])
-        gname = r.weighted([("g", 70), ("turtle", 15), ("com.example.cmds", 15)])
+        gname = self.ident("grammar", r.weighted(GNAMES_TYPICAL), [])
         anyweights = r.chance(0.2)
         if anyweights:
             self.bump("widened", "weights in front of later items")
@@ -258,7 +402,8 @@ class Gen:
         if r.chance(0.15):
             # imports resolve against nothing (no grammar file can be found): they have no effect
             self.bump("widened", "import statements")
-            g["imports"] = [r.choice(["<lib.cmd>", "<a.b.c>", "<x.*>", "<" + gname + ".a>", "<solo>"])
+            g["imports"] = [r.choice(["<lib.cmd>", "<a.b.c>", "<x.*>", "<" + gname + ".a>", "<solo>",
+                                      "<" + self.ident("import", "lib", []) + r.choice([".cmd", ".*", "." + names[0]]) + ">"])
                             for _ in range(r.range(1, 2))]
         return g, kind
 
@@ -566,17 +711,22 @@ def canon_table(rules):
     return out
 
 
+def c_rname(full, gname, ids):
+    """full rule name of the C dump -> model naming (u<i> / g<k>), '?…' when it is neither"""
+    inner = full[1:-1]
+    if inner.startswith(gname + "."):
+        inner = inner[len(gname) + 1:]
+    if re.fullmatch(r"g[0-9]{5}", inner):
+        return "g%d" % int(inner[1:])
+    if inner in ids.rule:
+        return "u%d" % ids.rule[inner]
+    return "?" + full
+
+
 def c_table(crules, gname, ids):
     """C dump -> {name: (pub, alts)} in model naming"""
     def rname(full):
-        inner = full[1:-1]
-        if inner.startswith(gname + "."):
-            inner = inner[len(gname) + 1:]
-        if re.fullmatch(r"g[0-9]{5}", inner):
-            return "g%d" % int(inner[1:])
-        if inner in ids.rule:
-            return "u%d" % ids.rule[inner]
-        return "?" + full
+        return c_rname(full, gname, ids)
     out = {}
     for nm, pub, alts in crules:
         al = []
@@ -720,6 +870,19 @@ def run_batch(binp, cases):
                     dlines.append(f"cmp u{ids.rule[nm]} {FUEL} {MAXPAIRS} {fsg['n']} {fsg['start']} {fsg['final']} " +
                                   " ".join(fsg_arcs_tokens(fsg, ids, extra)))
                     plan.append((i, "cmp", (nm, "read")))
+            q = names_question(hc.get("gname") or g["name"], hc["rules"].get("parsed", []))
+            if q:
+                dlines.append(q)
+                plan.append((i, "names", None))
+            # jsgf_read_string against the model's readString: the table dump walks the hash table with the iterator
+            # jsgf_read_string uses, so the dump order is the order in which it looks for a public rule
+            ord_ = [c_rname(nm, hc.get("gname") or g["name"], ids) for nm, _, _ in hc["rules"].get("parsed", [])]
+            ord_ = [x for x in ord_ if not x.startswith("?")]
+            if ord_ and hc["parse"]:
+                dlines.append("readtop " + ",".join(ord_))
+                plan.append((i, "readtop", None))
+        dlines.append(f"usernames {hx(g['name'])} " + ",".join(hx(f"<{g['name']}.{nm}>") for nm in ids.rule))
+        plan.append((i, "usernames", None))
         results[i] = {"g": g, "text": text, "ids": ids, "h": hc, "m": {"rep": {}, "cmp": {}, "expand": {}},
                       "extra_words": extra}
     rc, dout, derr = run_driver_retry("\n".join(dlines) + "\n")
@@ -738,6 +901,8 @@ def run_batch(binp, cases):
             m["rep"][arg] = ans
         elif what == "expand":
             m["expand"][arg] = ans
+        elif what in ("names", "usernames", "readtop"):
+            m[what] = ans
         else:
             m["cmp"][arg] = ans
     return results
@@ -745,6 +910,45 @@ def run_batch(binp, cases):
 
 class DriverFailure(Exception):
     pass
+
+
+# the keys of jsgf->rules against the Lean model of the naming (`genName`, `userNamesOK`: Model/JsgfNames.lean, the
+# objects of C05_generated_names_distinct / C05_rule_strings_injective)
+
+def generated_counters(gname, crules):
+    """counters of the table keys of generated shape `<gname.gDIGITS>` in a rule-table dump"""
+    pre = "<" + gname + ".g"
+    ks = []
+    for nm, _, _ in crules:
+        if nm.startswith(pre) and nm.endswith(">") and re.fullmatch(r"[0-9]+", nm[len(pre):-1]):
+            ks.append(int(nm[len(pre):-1]))
+    return ks
+
+
+def names_question(gname, crules):
+    ks = generated_counters(gname, crules)
+    return f"names {hx(gname)} {','.join(map(str, ks))}" if ks else None
+
+
+def names_problems(gname, crules, user_full, ans, n_model_generated):
+    """every key of the dumped table must be the full name of a user rule or exactly the string the Lean `genName`
+    gives for its counter; as many generated keys as the model has internal rules"""
+    lean = set()
+    if ans:
+        w = ans.split(" ")
+        if w[0] != "names" or len(w) != 2:
+            return [("model: no answer to the names question: " + ans[:60], False, "")]
+        lean = {unhx(x) for x in w[1].split(",")}
+    probs = []
+    odd = [nm for nm, _, _ in crules if nm not in user_full and nm not in lean]
+    if odd:
+        probs.append((f"symbol table key {safe(odd[0])[:120]!r} ({byte_len(odd[0])} bytes) is neither the full name of a user rule "
+                      f"nor the name genName gives an internal rule of grammar {safe(gname)[:60]!r} ({len(odd)} such keys)", None, ""))
+    ngen = sum(1 for nm, _, _ in crules if nm in lean and nm not in user_full)
+    if n_model_generated is not None and ngen != n_model_generated:
+        probs.append((f"symbol table key count: {ngen} internal rules under generated names in jsgf->rules, {n_model_generated} in "
+                      f"desugar(g) (distinct internal rules entered under one key?)", None, ""))
+    return probs
 
 
 def run_driver_retry(text, timeout=1800):
@@ -867,6 +1071,16 @@ def judge_case(res):
         probs.append(("rule table built by the real scanner/parser differs from desugar(g)", None, why))
     if hc["missing"]:
         probs.append(("a defined rule is missing from jsgf->rules", None, hc["missing"]))
+    # (a') the keys of the table are the strings the naming model gives (no two abstract names under one key)
+    if m.get("usernames") != "usernames 1":
+        probs.append(("model: userNamesOK is false for the rule names of a generated grammar", False, m.get("usernames", "")[:40]))
+    try:
+        n_gen = sum(1 for k in m_table(tl) if k.startswith("g"))
+    except Exception:
+        n_gen = None
+    gn = hc["gname"] or g["name"]
+    probs += names_problems(gn, hc["rules"].get("parsed", []), {f"<{gn}.{nm}>" for nm in ids.rule}, m.get("names"), n_gen)
+    res["names_compared"] = len(generated_counters(gn, hc["rules"].get("parsed", [])))
     # (b) accept/refuse and (c) language
     rep, lasthop = {}, {}
     for nm in names:
@@ -950,6 +1164,19 @@ def judge_case(res):
     # (f) whole pipeline
     pubs = [nm for nm, p, _ in first_defs(g) if p]
     rd = hc["read"]
+    # (f') exactly the model's readString (C05_read_string): first public rule in the table's iteration order
+    rt = m.get("readtop", "").split(" ")
+    if len(rt) == 3 and rt[0] == "readtop" and rd != "crash":
+        inv = {"u%d" % v: k for k, v in ids.rule.items()}
+        want = None if rt[2] != "1" else inv.get(rt[1])
+        got = None if rd is None else rd[0][1 + len(g["name"]) + 1:-1]
+        # C05_read_string holds for every order, and its two conclusions are evaluated on the implementation below for
+        # whatever public rule it picked; agreement on WHICH public rule is measured, not demanded (the property does not
+        # say which one is compiled)
+        res["readtop_compared"] = 1 if want == got else 0
+        res["readtop_other_choice"] = 0 if want == got else 1
+    elif hc["parse"] and rd != "crash":
+        probs.append(("model: no answer to the readtop question", False, m.get("readtop", "")[:40]))
     if rd == "crash":
         pass
     elif rd is None:
@@ -1002,7 +1229,20 @@ def fsg_brief(fsg):
 # shrinking a failing grammar
 
 def shrink_candidates(g):
-    """smaller grammars, most aggressive first"""
+    """smaller grammars, most aggressive first; import statements are dropped first and otherwise kept"""
+    if g.get("imports"):
+        yield {"name": g["name"], "rules": g["rules"]}
+        for k in range(len(g["imports"])):
+            if len(g["imports"]) > 1:
+                yield {"name": g["name"], "rules": g["rules"], "imports": g["imports"][:k] + g["imports"][k + 1:]}
+        for cand in shrink_candidates1(g):
+            cand["imports"] = g["imports"]
+            yield cand
+    else:
+        yield from shrink_candidates1(g)
+
+
+def shrink_candidates1(g):
     rules = g["rules"]
     # drop a rule
     for i in range(len(rules)):
@@ -1011,8 +1251,37 @@ def shrink_candidates(g):
     for i, (nm, pub, body) in enumerate(rules):
         for nb in shrink_alts(body):
             yield {"name": g["name"], "rules": rules[:i] + [(nm, pub, nb)] + rules[i + 1:]}
+    # a long rule name: rename the rule (definitions and references) to a short unused name
+    used = {nm for nm, _, _ in rules}
+
+    def rename_exp(e, a, b):
+        if e[0] == "r":
+            return ("r", b) if e[1] == a else e
+        if e[0] in ("G", "O"):
+            return (e[0], rename_alts(e[1], a, b))
+        if e[0] in ("S", "P"):
+            return (e[0], rename_exp(e[1], a, b))
+        return e
+
+    def rename_alts(al, a, b):
+        return [[(w, tags, rename_exp(e, a, b)) for w, tags, e in sq] for sq in al]
+    refs = set()
+    for _, _, body in rules:
+        walk_exps(body, lambda e: refs.add(e[1]) if e[0] == "r" else None)
+    for nm in sorted(used | refs, key=lambda x: -len(x)):
+        if len(nm) > 2:
+            short = next((x for x in "abcdefghijk" if x not in used and x not in refs), None)
+            if short:
+                yield {"name": g["name"], "rules": [(short if n == nm else n, p, rename_alts(b, nm, short)) for n, p, b in rules]}
     if g["name"] != "g":
         yield {"name": "g", "rules": rules}
+        # the failure needs the name: shorten it (halve, then character by character from the end)
+        nm = g["name"]
+        for cut in (len(nm) // 2, len(nm) - 8, len(nm) - 1):
+            if 1 <= cut < len(nm):
+                short = nm[:cut].rstrip(".") or "g"
+                if short != nm:
+                    yield {"name": short, "rules": rules}
 
 
 def shrink_alts(a):
@@ -1077,6 +1346,7 @@ def problem_class(p):
              ("but the compiler refuses it", "refuses-representable"),
              ("but the compiler refuses", "refuses-representable"),
              ("the language of the JSGF rule", "language-differs"),
+             ("symbol table key", "generated-name-differs"),
              ("rule table built by the real", "rule-table-differs"),
              ("mirror of expand_rule", "expansion-differs-from-mirror"),
              ("missing from jsgf->rules", "rule-missing"),
@@ -1382,6 +1652,10 @@ def run_text_batch(texts):
             continue
         dlines.append(f"text {t.hex() or '-'}")
         plan.append((i, "text", None))
+        q = names_question(gname, hc["rules"].get("parsed", []))
+        if q:
+            dlines.append(q)
+            plan.append((i, "names", None))
         for top, kind, fsg in hc["fsg"]:
             if kind != "raw" or top not in ids.rule:
                 continue
@@ -1407,7 +1681,9 @@ def run_text_batch(texts):
         if rc != 0 or len(d2) != len(plan):
             raise DriverFailure(f"driver rc={rc}, {len(d2)} answers for {len(plan)} questions: {derr[-600:]}")
         for (i, what, arg), ans in zip(plan, d2):
-            if what != "text":
+            if what == "names":
+                results[i]["names"] = ans
+            elif what != "text":
                 results[i][what][arg] = ans
     return results
 
@@ -1441,6 +1717,16 @@ def judge_text(res):
         ok, why = False, f"cannot compare the rule tables: {e!r}"
     if not ok:
         probs.append(("text front end: rule table built by the real scanner/parser differs from the Lean parse + desugar", None, why))
+    head = ans.partition(" | ")[0].split(" ")
+    res["user_names_ok"] = "K=1" in head
+    try:
+        n_gen = sum(1 for k in m_table(ans) if k.startswith("g"))
+    except Exception:
+        n_gen = None
+    crules = hc["rules"].get("parsed", [])
+    probs += names_problems(gname, crules, set(ids.R), res.get("names"), n_gen if res["user_names_ok"] else None)
+    res["names_compared"] = len(generated_counters(gname, crules))
+    if not ok:
         return probs
     rep = {}
     for top, a in res["rep"].items():
@@ -1511,6 +1797,9 @@ def text_stream(c, gen, stats, ntexts, failed, fail_count, machinery):
                 st["built" if isinstance(f, dict) else "refused"] += 1
             st["comparisons"] += sum(1 for v in res["cmp"].values() if v == "equal")
             stats["mirror_compared"] = stats.get("mirror_compared", 0) + res.get("mirror_compared", 0)
+            stats["names_compared"] = stats.get("names_compared", 0) + res.get("names_compared", 0)
+            if res.get("user_names_ok") is False:
+                st["user_name_of_generated_shape"] = st.get("user_name_of_generated_shape", 0) + 1
             if probs:
                 key = text_finding_key(res)
                 cls = "text: " + problem_class(main_problem(probs)) + (" [" + key + "]" if key else "")
@@ -1779,6 +2068,11 @@ def account(stats, res, probs):
         key = ans.split(" ")[0]
         st["comparisons"][key] = st["comparisons"].get(key, 0) + 1
     st["mirror_compared"] = st.get("mirror_compared", 0) + res.get("mirror_compared", 0)
+    st["names_compared"] = st.get("names_compared", 0) + res.get("names_compared", 0)
+    st["readtop_compared"] = st.get("readtop_compared", 0) + res.get("readtop_compared", 0)
+    st["readtop_other_choice"] = st.get("readtop_other_choice", 0) + res.get("readtop_other_choice", 0)
+    if res.get("names_compared", 0) >= MIN_GENERATED and byte_len(g["name"]) >= LONG_GNAME and not probs:
+        st["long_name_tables_agreeing"] = st.get("long_name_tables_agreeing", 0) + 1
     sc = res.get("sum_check", "not run")
     st["probability_sum_check"][sc] = st["probability_sum_check"].get(sc, 0) + 1
     rc = recursion_class(g)
@@ -1859,8 +2153,11 @@ def check(c):
     c.assumptions += ["weights may stand in front of any item (as jsgf_parser.y takes them); a rule reference / <NULL> that is not first in "
                       "its alternative and has a weight above 1 is refused by jsgf_build_fsg (D36) and by the model (`buildRaw`); weights in "
                       "(1, 1.0002) (log-quantisation decides) and weights of 39 digits and more (infinite in single precision) are outside the quantifier",
-                      "a rule name defined twice keeps its first definition (hash_table_enter), in the model as in the code; rule names of the "
-                      "form gNNNNN (collision with internal names) are outside the quantifier",
+                      "a rule name defined twice keeps its first definition (hash_table_enter), in the model as in the code; user rule names of the "
+                      "shape g<digits> (collision with internal names; decidable test looksGenerated / userNamesOK, evaluated by the driver on every "
+                      "grammar and text) are outside the quantifier; every other name is inside it whatever its length: internal names are proved "
+                      "pairwise different and different from user names for every grammar name (C05_generated_names_distinct, "
+                      "C05_rule_strings_injective) and every key of the real table is compared with the Lean genName",
                       "import statements are resolved against nothing: the harness sets JSGF_PATH to a directory that does not exist, so an "
                       "import has no effect (a reference to the imported rule is then an undefined rule); importing from grammar files is outside the quantifier",
                       "a zero-weight alternative is compared structurally (the arc exists with log-zero probability)",
@@ -1961,9 +2258,24 @@ def check(c):
     c.oblige("correspondence: real scanner/parser/expansion (ASan/UBSan) agree with the model on every generated grammar "
              "(rule table, accept/refuse, language of raw and closed FSG, weights, rule stack, jsgf_read_string)",
              not unexplained and not machinery, {"failing cases per class": fail_count, "known findings": sorted(known)})
+    # the measured distribution must contain what the quantifier "every grammar" is claimed for: long grammar names
+    # together with several generated rules (their names share the long prefix), checked only on complete runs
+    longs = stats.get("long_grammar_names", {})
+    need = {f"name >= {LONG_GNAME} bytes and >= {MIN_GENERATED} generated rules": 30 if c.tier == "quick" else 300,
+            f"name >= 100 bytes and >= {MIN_GENERATED} generated rules": 10 if c.tier == "quick" else 100,
+            f"name >= 300 bytes and >= {MIN_GENERATED} generated rules": 3 if c.tier == "quick" else 30}
+    if sum(fail_count.values()) < 40:
+        c.oblige("input distribution: grammars with a long name (>= %d, >= 100, >= 300 bytes) and >= %d generated rules occurred, "
+                 "and for such grammars the real symbol table was compared key by key with the naming model"
+                 % (LONG_GNAME, MIN_GENERATED),
+                 all(longs.get(k, 0) >= v for k, v in need.items()) and
+                 (bool(fail_count) or stats.get("long_name_tables_agreeing", 0) >= need[f"name >= {LONG_GNAME} bytes and >= {MIN_GENERATED} generated rules"] // 2),
+                 {"generated": longs, "required at least": need,
+                  "long-name tables with >= 2 generated keys agreeing with the model": stats.get("long_name_tables_agreeing", 0)})
     nontrivial = stats["comparisons"].get("equal", 0) + stats["comparisons"].get("differ", 0)
     c.cov.update({"evaluations": evaluations, "distinct_nontrivial": len(distinct) + exhaustive,
-                  "rule": "distinct generated JSGF texts (1-5 rules, nesting depth 0-6, rule graphs with repeated references, "
+                  "rule": "distinct generated JSGF texts (1-5 rules, nesting depth 0-6, identifiers of 1 to 1100 bytes incl. package-style "
+                          "grammar names, rule graphs with repeated references, "
                           "tail/non-tail/left/hidden recursion, undefined rules, <NULL>/<VOID>, weights, tags, comments, quoting) "
                           "plus the exhaustive two-rule small scope; every rule of every grammar is built as top (raw and closed)",
                   "verified_language_comparisons": nontrivial, "small_scope_exhaustive_grammars": exhaustive,
@@ -1976,6 +2288,14 @@ def check(c):
                   "jsgf_read_string": stats["read_string"], "comparison_verdicts": stats["comparisons"],
                   "probability_sum_check_per_grammar": stats["probability_sum_check"],
                   "raw_fsgs_equal_to_mirror_of_expand_rule": stats.get("mirror_compared", 0),
+                  "identifier_length_bytes_per_kind": stats.get("identifier_lengths", {}),
+                  "identifier_length_classes_drawn": {k: f"{w}%" for k, w in LEN_CLASSES},
+                  "grammar_name_bytes_x_generated_rules": dict(sorted(stats.get("grammar_name_bytes_x_generated_rules", {}).items())),
+                  "long_grammar_names_with_generated_rules": stats.get("long_grammar_names", {}),
+                  "long_name_tables_agreeing_with_naming_model": stats.get("long_name_tables_agreeing", 0),
+                  "generated_table_keys_equal_to_lean_genName": stats.get("names_compared", 0),
+                  "jsgf_read_string_equal_to_model_readString": stats.get("readtop_compared", 0),
+                  "jsgf_read_string_other_rule_or_verdict_than_model_readString": stats.get("readtop_other_choice", 0),
                   "regenerated_by_generator": stats.get("regenerated", {}),
                   "widened_quantifier_cases": stats.get("widened", {}),
                   "max_explored_forms": stats["max_forms"], "explored_forms_total": stats["forms_total"],
